@@ -1,8 +1,13 @@
 /-
   Layer `Note`, invariant J (delivery): a notified note with children has a thread inside
-  `note_notify_child` on it, past the store of the flag — PROVIDED `nsync_note_free` never adopts a
-  child under an already notified parent (hypothesis of `ReachableH`; the defect F4 is exactly such
-  an adoption).
+  `note_notify_child` on it, past the store of the flag.  This file: the definitions, how an
+  activation ends (`step_active`: only by leaving WAIT_FOR_NO_CHILDREN with an EMPTY list — since the
+  repair of F4 it scans again when `children_adopted` ended the wait), and the preservation of the
+  invariant given that the adoption step of `nsync_note_free` never appends to an empty list of a
+  notified parent (`step_invJ'`).  That this never happens on the repaired code (F7: the note being
+  freed is itself still on that list) is `Proofs/NoteFixJ.lean` (`Reachable.invJ`); `ReachableH`
+  (the hypothesis needed before the repair: no adoption under an already notified parent at all)
+  is kept for the corollaries.
 -/
 import NsyncVerif.Proofs.NoteInvJ0
 
@@ -92,7 +97,7 @@ theorem step_active {s s' : State} {e : Event} (hs : step s e = .ok s') (a : Tid
   all_goals (try (rw [‹s.pc _ = _›] at hp))
   all_goals (try (simp [Active] at hp; done))
   all_goals (try (simp only [setPc_pc, upd_same, afterDeadline_pc, afterNotify_pc, childReturn_pc,
-    childWakeNext_pc, freeLoopStart_pc, enterChild_pc, leave_pc, addUser_pc, markCalled_pc,
+    childWakeNext_pc, childScanStart_pc, freeLoopStart_pc, enterChild_pc, leave_pc, addUser_pc, markCalled_pc,
     markFreeing_pc, setAfter_pc, pushObs_pc, publish_pc, delUser_pc]))
   all_goals (try (left; simpa [Active] using hp; done))
   -- early return from `ld`: the head had not stored, only outer activations count
@@ -114,6 +119,14 @@ theorem step_active {s s' : State} {e : Event} (hs : step s e = .ok s') (a : Tid
     simp only [Active, CPos.stored] at hp
     rcases hp with hp | hp
     · simp at hp
+    · exact Or.inr hp))
+  -- another scan after WAIT_FOR_NO_CHILDREN: same stack
+  all_goals (try (
+    left
+    rw [active_childLoopStartPc]
+    simp only [Active, CPos.stored] at hp
+    rcases hp with hp | hp
+    · exact Or.inl hp.1
     · exact Or.inr hp))
   -- positions with a general stack
   all_goals (try (left; exact Active.move rfl hp))
@@ -161,8 +174,15 @@ theorem step_flag_active {s s' : State} {e : Event} (hs : step s e = .ok s') (n 
 def InvJ (s : State) : Prop :=
   ∀ p, (s.notes p).notified = true → (s.notes p).children ≠ [] → ∃ t, Active (s.pc t) p
 
-theorem step_invJ {s s' : State} {e : Event} (hr : Reachable s) (hJ : InvJ s)
-    (hs : step s e = .ok s') (hno : ¬ AdoptsUnderNotified s e) : InvJ s' := by
+/-- Preservation, given that the adoption step (note.c: `nsync_note_free` appends a child of the
+    note being freed to `parent->children`) never appends to an EMPTY list of a notified parent.
+    Since the repair of F7 this is a fact (`Proofs/NoteFixJ.lean`: the note being freed is itself
+    still on that list); `ReachableH` assumes it away. -/
+theorem step_invJ' {s s' : State} {e : Event} (hr : Reachable s) (hJ : InvJ s)
+    (hs : step s e = .ok s')
+    (hno : ∀ t n p c nx, e = .lockRet t → s.pc t = .fr .lockChildRet n (some p) c nx →
+      (s.notes c).disconnecting = 0 → (s.notes p).notified = true → (s.notes p).children ≠ []) :
+    InvJ s' := by
   intro p hn hch
   rcases step_flag_active hs p hn with hn0 | ⟨a, _, hact⟩ | ⟨a, q, dl, ha, hpc⟩
   · -- the flag was already set
@@ -175,7 +195,7 @@ theorem step_invJ {s s' : State} {e : Event} (hr : Reachable s) (hJ : InvJ s)
       · -- nsync_note_new links only under an un-notified parent
         unfold NoteRec.ntime Dl.pos at hpos
         simp [hn0] at hpos
-      · exact hno ⟨a, n, p, c, nx, he, hpc, hd, hn0⟩
+      · exact hno a n p c nx he hpc hd hn0 hch0
     · obtain ⟨t, ht⟩ := hJ p hn0 hch0
       by_cases ha : e.actor = some t
       · rcases step_active hs t ha p ht with h | h
@@ -194,6 +214,10 @@ theorem step_invJ {s s' : State} {e : Event} (hr : Reachable s) (hJ : InvJ s)
     · subst he
       simp only [Event.actor, Option.some.injEq] at ha
       subst ha; rw [hpc] at hpc'; cases hpc'
+
+theorem step_invJ {s s' : State} {e : Event} (hr : Reachable s) (hJ : InvJ s)
+    (hs : step s e = .ok s') (hno : ¬ AdoptsUnderNotified s e) : InvJ s' :=
+  step_invJ' hr hJ hs (fun t n p c nx he hpc hd hn _ => hno ⟨t, n, p, c, nx, he, hpc, hd, hn⟩)
 
 theorem ReachableH.invJ {s : State} (h : ReachableH s) : InvJ s := by
   induction h with
